@@ -91,7 +91,7 @@ var profiles = map[string]Profile{
 	// C16
 	"events": {Name: "events", MaxClients: 5, MaxOps: 3, MaxGens: 2, MaxLedgers: 2, WKind: [5]int{5, 3, 5, 3, 3},
 		Tpls:  []int{tplWorld, tplLit, tplVar, tplSetAccountMeta, tplAll},
-		IKPct: 25, RefPct: 5, DryPct: 20, IKPool: 2, RefPool: 2, TargetPool: 3, FundMax: 20, AmountMax: 6},
+		IKPct: 25, RefPct: 5, DryPct: 20, CancelPct: 8, CancelBlockedPct: 25, IKPool: 2, RefPool: 2, TargetPool: 3, FundMax: 20, AmountMax: 6},
 	// C14 invariant form under concurrency
 	"preview": {Name: "preview", MaxClients: 4, MaxOps: 4, MaxGens: 2, MaxLedgers: 1, WKind: [5]int{6, 3, 3, 3, 3},
 		Tpls:  []int{tplWorld, tplLit, tplVar, tplAll, tplSetAccountMeta},
